@@ -52,7 +52,7 @@ static const double Q16 = 1.0 / 65536.0;
 
 struct Stats {
 	uint64_t calls, parts, cut, trim, both, shared, hidden, capped, join_ok, join_ref, join_spur, cxx_parts, poly_parts, poly_fail;
-	uint64_t pair_frac_checked, pair_frac_undefined, pair_frac_differ, hist_reset, pair_parts, pair_cut_and_trim2, pair_hidden_by_second, pair_poly_parts, pair_hist;
+	uint64_t pair_unequal, pair_same_segment_ok, lost_crossings, pair_frac_checked, pair_frac_undefined, pair_frac_differ, hist_reset, pair_parts, pair_cut_and_trim2, pair_hidden_by_second, pair_poly_parts, pair_hist;
 	uint64_t nontrivial;
 };
 
@@ -122,6 +122,10 @@ static bool check_parts(const double *v, size_t n, const Rng &g, const linepart 
 			if (p.usr > p.raw) ++st->shared;
 			if (p.usr < p.raw) ++st->hidden;
 			if (p.raw == UINT16_MAX) ++st->capped;
+			// the line enters/leaves the range right next to a drawn point but the part has no fraction for it: happens where a part
+			// ends because of the 65535 limit (the text promises correct stored fractions, not a fraction for every crossing)
+			if (!c && p.usr && pos && inr(g, v[pos]) && !inr(g, v[pos - 1])) ++st->lost_crossings;
+			if (!t && p.usr && e < n && inr(g, v[e - 1]) && !inr(g, v[e])) ++st->lost_crossings;
 		}
 		if (c || t || p.usr < p.raw) interesting = true;
 		pos += p.raw;
@@ -489,6 +493,7 @@ static bool check_parts2(const double *x, const double *y, size_t n, const linep
 		// stored fractions of a merged part: the drawn end point must be inside every range and on the boundary of at least one,
 		// i.e. the decoded value is the largest of the per-dimension crossings of that segment, each computed from the raw values
 		// (a dimension whose end value is in range does not constrain; undefined when a dimension is out of range at both ends)
+		long double wantf[2] = {0, 0}; bool havef[2] = {false, false};
 		for (int end = 0; end < 2; ++end) {
 			if (!(end ? t : c) || p.usr < 2) continue;
 			size_t o_i = end ? pos + p.usr - 1 : pos, n_i = end ? o_i - 1 : o_i + 1;
@@ -496,7 +501,7 @@ static bool check_parts2(const double *x, const double *y, size_t n, const linep
 			const double *vv[2] = {x, y}; const Rng *gg[2] = {&g0, &g1};
 			for (int d = 0; d < 2; ++d) {
 				if (inr(*gg[d], vv[d][o_i])) continue;
-				if (!inr(*gg[d], vv[d][n_i])) { defined = false; break; }
+				if (std::isnan(vv[d][o_i]) || !inr(*gg[d], vv[d][n_i])) { defined = false; break; }   // no value there / out of range at both ends
 				long double f = crossing(*gg[d], vv[d][o_i], vv[d][n_i]);
 				if (any && f != want && st) ++st->pair_frac_differ;   // both dimensions cross this segment, at different fractions
 				any = true;
@@ -512,11 +517,22 @@ static bool check_parts2(const double *x, const double *y, size_t n, const linep
 				return false;
 			}
 			if (st) ++st->pair_frac_checked;
+			wantf[end] = want; havef[end] = true;
+		}
+		// cut and trim on one and the same segment: the range is entered at fraction cut and left at 1 - trim;
+		// when the true crossings give cut + trim > 1 no point of the segment is inside all ranges and nothing may be drawn
+		if (c && t && p.usr == 2 && havef[0] && havef[1]) {
+			if (wantf[0] + wantf[1] > 1 + 1e-12L) {
+				o.kind = "empty-segment-drawn"; o.cls = "cut+trim>1";
+				o.detail = fmt("part %zu at %zu %s: the segment (%.17g,%.17g) -> (%.17g,%.17g) enters the last range at %.6Lf and has left the first one at %.6Lf: no point of it is visible, but a line with two end points is reported", k, pos, part_str(p).c_str(), x[pos], y[pos], x[pos + 1], y[pos + 1], wantf[0], 1 - wantf[1]);
+				return false;
+			}
+			if (st) ++st->pair_same_segment_ok;
 		}
 		for (size_t i = pos + c; i < pos + p.usr - t; ++i) {
 			if (inr(g0, x[i]) && inr(g1, y[i])) { if (cover[i] < 3) ++cover[i]; continue; }
 			o.kind = "outrange-drawn"; o.cls = i == pos ? "first" : (i == pos + p.usr - 1 ? "last" : "interior");
-			o.detail = fmt("part %zu at %zu %s: value[%zu]=(%.17g,%.17g) is out of range in dimension %d but is a drawn point without cut/trim mark", k, pos, part_str(p).c_str(), i, x[i], y[i], inr(g0, x[i]) ? 1 : 0);
+			o.detail = fmt("part %zu at %zu %s: value[%zu]=(%.17g,%.17g) is out of range (or has no value) in dimension %d but is a drawn point without cut/trim mark", k, pos, part_str(p).c_str(), i, x[i], y[i], inr(g0, x[i]) ? 1 : 0);
 			return false;
 		}
 		if (st) { ++st->pair_parts; if (c && t && p.usr == 2) ++st->pair_cut_and_trim2; }
@@ -531,13 +547,15 @@ static bool check_parts2(const double *x, const double *y, size_t n, const linep
 	}
 	return true;
 }
-static void pair_case(Run &r, Stats &st, const double *x, const double *y, size_t n, const std::function<std::string()> &describe)
+// lx/ly: the exactly sized arrays handed to the library (nx, ny values); x/y: the same padded with NaN to n = max(nx, ny)
+// for the oracle (a value that does not exist is in no range, so such a point can never be a drawn point)
+static void pair_case(Run &r, Stats &st, const double *lx, size_t nx, const double *ly, size_t ny, const double *x, const double *y, size_t n, const std::function<std::string()> &describe)
 {
 	std::vector<linepart> ps, first; std::vector<uint8_t> cover; Verdict o;
 	mpt::layout::graph::transform3 tr;
 	setup_tr(tr, RNG[0], 2);
 	tr._dim[1]._flags = mpt::TransformLimit; { struct mpt::range lim(RNG[1].min, RNG[1].max); tr._dim[1].limit = lim; }
-	mpt::span<const double> sx(x, n), sy(y, n);
+	mpt::span<const double> sx(lx, nx), sy(ly, ny);
 	auto fail = [&](const char *drv, const std::string &kind, const std::string &cls, const std::string &detail) {
 		r.violation(std::string(drv) + "|" + kind + "|" + cls, "x in [0,1], y in [-1,1], data " + describe() + " via " + drv + ": " + detail); };
 	auto judge = [&](const char *drv, bool stats) {
@@ -550,7 +568,8 @@ static void pair_case(Run &r, Stats &st, const double *x, const double *y, size_
 	size_t visible = 0, hidden2 = 0;
 	for (size_t i = 0; i < n; ++i) { if (inr(RNG[0], x[i]) && inr(RNG[1], y[i])) ++visible; else if (inr(RNG[0], x[i])) ++hidden2; }
 	if (hidden2) ++st.pair_hidden_by_second;
-	for (int preset = 0; preset < 2; ++preset) {
+	if (nx != ny) ++st.pair_unequal;
+	for (int preset = nx >= ny ? 0 : 1; preset < 2; ++preset) {   // an empty array only knows the length of the first dimension
 		const char *drv = preset ? "pair-refine" : "pair-apply";
 		r.hint(drv);
 		linepart::array a;
@@ -582,6 +601,8 @@ static void pair_case(Run &r, Stats &st, const double *x, const double *y, size_
 		for (auto &p : first) if (p.usr != p.raw) { ++st.pair_hist; break; }
 	}
 	// polyline over both dimensions: points() of every part are exactly the values visible in both dimensions
+	// (maxsize() in value_store.cpp, outside the anchored files, only looks at the first store: first dimension must be the longest)
+	if (nx < ny) return;
 	r.hint("pair-polyline");
 	mpt::value_store vs[2];
 	if (!vs[0].set(sx) || !vs[1].set(sy)) { r.count("polyline_store_failed"); return; }
@@ -618,19 +639,21 @@ static void pair_case(Run &r, Stats &st, const double *x, const double *y, size_
 	st.pair_poly_parts += ps.size();
 	if (visible && hidden2) ++st.nontrivial;
 }
-struct PairJob { int L; int p; };
+struct PairJob { int nx, ny; int p; };
 static void pair_body(Run &r, Stats &st, const PairJob &j, Ctx &x)
 {
-	size_t n = j.L;
-	double *vx = (double *) malloc(n * sizeof(double)), *vy = (double *) malloc(n * sizeof(double));
+	size_t nx = j.nx, ny = j.ny, n = nx > ny ? nx : ny;
+	double *vx = (double *) malloc(nx * sizeof(double)), *vy = (double *) malloc(ny * sizeof(double));
+	double ox[8], oy[8];
 	int lx[8], ly[8];
-	for (size_t i = 0; i < n; ++i) { lx[i] = i == 0 && j.p >= 0 ? j.p : (int) x.choose(6); vx[i] = RNG[0].val[lx[i]]; }
+	for (size_t i = 0; i < n; ++i) ox[i] = oy[i] = NAN;
+	for (size_t i = 0; i < nx; ++i) { lx[i] = i == 0 && j.p >= 0 ? j.p : (int) x.choose(6); ox[i] = vx[i] = RNG[0].val[lx[i]]; }
 	static const int sub4[4] = {0, 2, 4, 5};   // below, in1, at-max, above
-	for (size_t i = 0; i < n; ++i) { ly[i] = j.L >= 5 ? sub4[x.choose(4)] : (int) x.choose(6); vy[i] = RNG[1].val[ly[i]]; }
-	auto desc = [&]() { std::string d = "x=["; for (size_t i = 0; i < n; ++i) d += (i ? " " : "") + std::string(RNG[0].lname[lx[i]]); d += "] y=["; for (size_t i = 0; i < n; ++i) d += (i ? " " : "") + std::string(RNG[1].lname[ly[i]]); return d + "]"; };
+	for (size_t i = 0; i < ny; ++i) { ly[i] = ny >= 5 ? sub4[x.choose(4)] : (int) x.choose(6); oy[i] = vy[i] = RNG[1].val[ly[i]]; }
+	auto desc = [&]() { std::string d = "x=["; for (size_t i = 0; i < nx; ++i) d += (i ? " " : "") + std::string(RNG[0].lname[lx[i]]); d += "] y=["; for (size_t i = 0; i < ny; ++i) d += (i ? " " : "") + std::string(RNG[1].lname[ly[i]]); return d + "]"; };
 	if (r.replaying) r.note("data %s", desc().c_str());
 	uint64_t nt = st.nontrivial;
-	pair_case(r, st, vx, vy, n, desc);
+	pair_case(r, st, vx, nx, vy, ny, ox, oy, n, desc);
 	if (st.nontrivial != nt && n >= 4 && r.samples.size() < 2) r.sample("2-dim " + desc());
 	free(vx); free(vy);
 }
@@ -773,6 +796,8 @@ void mc_jobs(Tier t, std::vector<std::string> &jobs)
 		if (L >= 4) for (int a = 0; a < 6; ++a) jobs.push_back(fmt("pair|L=%d|p=%d", L, a));
 		else jobs.push_back(fmt("pair|L=%d|p=-", L));
 	}
+	// dimensions of different length (1..4 values each): a point without a value in one dimension is never drawn
+	for (int a = 4; a >= 1; --a) for (int b = 4; b >= 1; --b) if (a != b) jobs.push_back(fmt("pairu|x=%d|y=%d", a, b));
 	for (int s = 0; s < JOIN_SLICES; ++s) jobs.push_back(fmt("joinpairs|%d", s));
 	jobs.push_back("codes");
 }
@@ -781,7 +806,8 @@ static void body(Run &r, Stats &st, const std::string &job, Ctx &x)
 {
 	if (job.compare(0, 4, "seq|") == 0) { static SeqJob j; static std::string cached; if (cached != job) { j = parse_seq(job); cached = job; } seq_body(r, st, j, x); }
 	else if (job.compare(0, 5, "long|") == 0) long_body(r, st, parse_long(job), x);
-	else if (job.compare(0, 5, "pair|") == 0) { PairJob j; char pc = '-'; sscanf(job.c_str(), "pair|L=%d|p=%c", &j.L, &pc); j.p = pc == '-' ? -1 : pc - '0'; pair_body(r, st, j, x); }
+	else if (job.compare(0, 5, "pair|") == 0) { PairJob j; char pc = '-'; sscanf(job.c_str(), "pair|L=%d|p=%c", &j.nx, &pc); j.ny = j.nx; j.p = pc == '-' ? -1 : pc - '0'; pair_body(r, st, j, x); }
+	else if (job.compare(0, 6, "pairu|") == 0) { PairJob j; j.p = -1; sscanf(job.c_str(), "pairu|x=%d|y=%d", &j.nx, &j.ny); pair_body(r, st, j, x); }
 	else if (job.compare(0, 10, "joinpairs|") == 0) join_body(r, st, atoi(job.c_str() + 10), JOIN_SLICES, x);
 }
 static void flush_stats(Run &r, const Stats &st)
@@ -793,6 +819,8 @@ static void flush_stats(Run &r, const Stats &st)
 	r.count("join_merged", st.join_ok); r.count("join_refused", st.join_ref); r.count("join_spurious_refusals(not flagged)", st.join_spur);
 	r.count("array_history_reset_with_usr!=raw", st.hist_reset); r.count("pair_parts", st.pair_parts); r.count("pair_parts_cut_and_trim_usr=2", st.pair_cut_and_trim2);
 	r.count("pair_inputs_hidden_only_by_second_dimension", st.pair_hidden_by_second); r.count("pair_polyline_parts", st.pair_poly_parts); r.count("pair_history_reset_with_usr!=raw", st.pair_hist);
+	r.count("pair_inputs_with_dimensions_of_different_length", st.pair_unequal); r.count("pair_parts_cut_and_trim_on_one_segment_nonempty", st.pair_same_segment_ok);
+	r.count("crossings_next_to_a_drawn_point_without_fraction(part limit; not flagged)", st.lost_crossings);
 	r.count("pair_fractions_checked", st.pair_frac_checked); r.count("pair_fractions_two_dimensions_cross_differently", st.pair_frac_differ); r.count("pair_fractions_undefined(not judged)", st.pair_frac_undefined);
 	r.count("cxx_array_parts", st.cxx_parts); r.count("polyline_parts", st.poly_parts); r.count("polyline_nothing_visible", st.poly_fail);
 }
@@ -801,7 +829,8 @@ void mc_explore(Run &r, const std::string &job)
 	Stats st; memset(&st, 0, sizeof st);
 	for (const char *k : {"nontrivial", "parts_cut_only", "parts_trim_only", "parts_cut_and_trim", "parts_shared_endpoint(usr=raw+1)", "parts_with_hidden_values(usr<raw)",
 	                      "parts_at_limit(raw=65535)", "join_merged", "join_refused", "cxx_array_parts", "polyline_parts",
-	                      "array_history_reset_with_usr!=raw", "pair_parts", "pair_parts_cut_and_trim_usr=2", "pair_inputs_hidden_only_by_second_dimension", "pair_polyline_parts", "pair_history_reset_with_usr!=raw", "pair_fractions_checked", "pair_fractions_two_dimensions_cross_differently"}) r.require(k);
+	                      "array_history_reset_with_usr!=raw", "pair_parts", "pair_parts_cut_and_trim_usr=2", "pair_inputs_hidden_only_by_second_dimension", "pair_polyline_parts", "pair_history_reset_with_usr!=raw", "pair_fractions_checked", "pair_fractions_two_dimensions_cross_differently",
+	                      "pair_inputs_with_dimensions_of_different_length", "pair_parts_cut_and_trim_on_one_segment_nonempty"}) r.require(k);
 	if (job == "codes") { r.additive = true; r.enter(Vec(), "code"); code_job(r, st); ++r.executions; }
 	else dfs(r, [&](Ctx &x) { body(r, st, job, x); });
 	flush_stats(r, st);
